@@ -321,7 +321,13 @@ def check(ctx):
             y = o[1]
             if isinstance(y, bool) or num_canon(y) is None:
                 continue
-            if not member(y, J.a, J.b, inputs_exact):
+            if inputs_exact and not isinstance(y, float):
+                # nothing was rounded on the scalar side (exact operands, exact image): the enclosure is exact too,
+                # whatever kind the bounds were delivered in — no slack
+                inside = Fraction(J.a) <= Fraction(y) <= Fraction(J.b)
+            else:
+                inside = member(y, J.a, J.b, inputs_exact)
+            if not inside:
                 ctx.violation("encl:" + txt, txt, "result contains %s applied to the point %s = %s" % (label, x, y),
                               str(J), HOW % txt)
                 return
